@@ -77,6 +77,8 @@ extern "C" void h_c11_receive(unsigned long nshards, unsigned long len) {
     g_manifest = protocol::Manifest{}; g_manifest.chunk_id[0] = 0xC1; g_manifest.chunk_id[1] = 0x17;
     nondet_bytes(g_manifest.chunk_hash.data(), 32, "chunk_hash"); for (int i = 0; i < 12; ++i) g_manifest.nonce.bytes[i] = static_cast<std::uint8_t>(0xA0 + i);   // concrete nonce: the keystream is then concrete (ChaCha20 itself is C09)
     g_manifest.threshold = nondet_u8("threshold");
+    // optional manifest metadata is symbolic too: none of it may stand in for the content hash
+    g_manifest.security.has_attestation_digest = nondet_bool("has_attestation_digest");
     const std::uint8_t life = nondet_u8("remaining_s") & 63;
     g_manifest.expires_at = std::chrono::system_clock::time_point(std::chrono::nanoseconds((500 + static_cast<long long>(life)) * kNs));
     for (unsigned long i = 0; i < nshards; ++i) {
@@ -88,6 +90,19 @@ extern "C" void h_c11_receive(unsigned long nshards, unsigned long len) {
     g_decodable = true; g_broadcasts = 0; g_seed_notes = 0;
     ChunkData cipher(len); if (len) nondet_bytes(cipher.data(), len, "ciphertext");
     const ChunkData given = cipher;
+    // the attestation digest is "the digest of what this ciphertext decrypts to under the manifest's shares (if they combine), XOR a
+    // symbolic difference": an input like any other, phrased so that counterexamples replay with the real SHA-256
+    {
+        std::array<std::uint8_t, 32> att{};
+        try {
+            std::vector<crypto::ShamirShare> sh; for (const auto& s : g_manifest.shards) { crypto::ShamirShare x{}; x.index = s.index; x.value = s.value; sh.push_back(x); }
+            crypto::Key k{}; k.bytes = crypto::Shamir::combine(sh, g_manifest.threshold);
+            const auto p = crypto::CryptoManager::decrypt_with_key(k, g_manifest.chunk_id, std::span<const std::uint8_t>(given), g_manifest.nonce);
+            if (p.has_value()) att = crypto::Sha256::digest(std::span<const std::uint8_t>(*p));
+        } catch (const std::exception&) {}
+        std::uint8_t delta[32]; nondet_bytes(delta, 32, "attestation_difference");
+        for (std::size_t i = 0; i < 32; ++i) g_manifest.security.attestation_digest[i] = static_cast<std::uint8_t>(att[i] ^ delta[i]);
+    }
     const auto got = n->receive_chunk("eph://m", std::move(cipher));          // an exception escaping here is reported by the engine (C35)
     const auto rec = n->chunk_store_.get_record(g_manifest.chunk_id);
     const auto shards = n->dht_.shard_record(g_manifest.chunk_id);
@@ -104,4 +119,31 @@ extern "C" void h_c11_receive(unsigned long nshards, unsigned long len) {
         verif_assert(!rec.has_value() && providers.empty() && !shards.has_value() && !cached && g_broadcasts == 0 && g_seed_notes == 0, "C11: a replica that is not accepted is never stored, announced or cached");
         verif_reach("refused");
     }
+}
+// round trip: a symbolic plaintext of `len` bytes is encrypted the way store_chunk does (CryptoManager::encrypt_with_key under the chunk
+// id and nonce), its key travels as a single threshold-1 share, the content hash is that of the plaintext; importing the ciphertext with
+// that manifest must return exactly the plaintext. idv picks the first four chunk-id bytes (= the initial ChaCha20 block counter):
+// 0 ordinary, 1 ff ff ff ff (the counter wraps inside the first block range), 2 fe ff ff ff, 3 all four symbolic.
+extern "C" void h_c11_roundtrip(unsigned long len, unsigned long idv) {
+    PartialNode pn; Node* n = pn.node();
+    n->config_.min_manifest_ttl = std::chrono::seconds(2); n->config_.max_manifest_ttl = std::chrono::seconds(40);
+    verif_env::g_steady_ns = 9000 * kNs; verif_env::g_system_ns = 500 * kNs;
+    g_manifest = protocol::Manifest{};
+    for (std::size_t i = 0; i < 32; ++i) g_manifest.chunk_id[i] = static_cast<std::uint8_t>(0x40 + i);
+    if (idv == 1 || idv == 2) { g_manifest.chunk_id[0] = idv == 1 ? 0xFF : 0xFE; g_manifest.chunk_id[1] = g_manifest.chunk_id[2] = g_manifest.chunk_id[3] = 0xFF; }
+    if (idv == 3) nondet_bytes(g_manifest.chunk_id.data(), 4, "chunk_id_prefix");
+    for (int i = 0; i < 12; ++i) g_manifest.nonce.bytes[i] = static_cast<std::uint8_t>(0xA0 + i);
+    crypto::Key key{}; for (std::size_t i = 0; i < 32; ++i) key.bytes[i] = static_cast<std::uint8_t>(0x11 + 3 * i);
+    ChunkData plain(len); if (len) nondet_bytes(plain.data(), len, "plaintext");
+    const auto ct = crypto::CryptoManager::encrypt_with_key(key, g_manifest.chunk_id, plain);   // draws the nonce from the (modelled) random device
+    g_manifest.nonce = ct.nonce;
+    g_manifest.chunk_hash = crypto::Sha256::digest(std::span<const std::uint8_t>(plain));
+    g_manifest.threshold = 1; g_manifest.total_shares = 1;
+    { protocol::KeyShard s{}; s.index = 1; s.value = key.bytes; g_manifest.shards.push_back(s); }
+    g_manifest.expires_at = std::chrono::system_clock::time_point(std::chrono::nanoseconds((500 + 20) * kNs));
+    g_decodable = true; g_broadcasts = 0; g_seed_notes = 0;
+    const auto got = n->receive_chunk("eph://m", ChunkData(ct.data));
+    verif_assert(got.has_value(), "C11: content stored under a manifest is recovered from its replica (round trip)");
+    if (got.has_value()) verif_assert(*got == plain, "C11: the recovered bytes are exactly the stored plaintext");
+    verif_reach("roundtrip");
 }
